@@ -4,6 +4,7 @@
 #endif
 #include "exec.h"
 
+#include <algorithm>
 #include <cerrno>
 #include <cstdarg>
 #include <cstdlib>
@@ -153,6 +154,7 @@ std::string RunResult::log() const
 struct PtrObj {
 	int id;
 	int released;
+	char val[40]; // the token text the object was made from (ids depend on history, values do not)
 };
 
 struct Built {
@@ -238,6 +240,7 @@ static int sim_parsecb(cfg_t *cfg, cfg_opt_t *opt, const char *value, void *resu
 		PtrObj *blk = (PtrObj *)::malloc(sizeof(PtrObj));
 		blk->id = E->next_ptr_id++;
 		blk->released = 0;
+		snprintf(blk->val, sizeof blk->val, "%s", esc(v).c_str());
 		E->ptrs[blk] = *blk;
 		*(void **)result = blk;
 		break;
@@ -256,7 +259,7 @@ static void sim_freecb(void *p)
 		return;
 	}
 	it->second.released++;
-	E->cur->cbs.push_back("fcb obj" + std::to_string(it->second.id));
+	E->cur->cbs.push_back(std::string("fcb obj(") + it->second.val + ")");
 }
 
 static std::string value_repr(cfg_opt_t *opt, unsigned i);
@@ -436,7 +439,7 @@ static std::string value_repr(cfg_opt_t *opt, unsigned i)
 		auto it = E->ptrs.find(p);
 		if (it == E->ptrs.end())
 			return "ptr(?)";
-		return "obj" + std::to_string(it->second.id) + (it->second.released ? "!released" : "");
+		return std::string("obj(") + it->second.val + ")" + (it->second.released ? "!released" : "");
 	}
 	case CFGT_SEC: {
 		cfg_t *sec = cfg_opt_getnsec(opt, i);
@@ -624,7 +627,10 @@ static std::string print_ctx(cfg_t *cfg, const json &op)
 	char *buf = nullptr;
 	size_t len = 0;
 	FILE *ms = open_memstream(&buf, &len);
-	LIBCALL(op, E->cur->ret = cfg_print(cfg, ms));
+	volatile int rc = 0;
+	LIBCALL(op, rc = cfg_print(cfg, ms));
+	if (op.value("op", std::string()) == "print")
+		E->cur->ret = rc;
 	fclose(ms);
 	std::string s(buf ? buf : "", buf ? len : 0);
 	::free(buf);
@@ -998,13 +1004,14 @@ RunResult execute(const json &plan, const ExecOpts &opts)
 			ex.res.conservation.push_back("stream-leak x" + std::to_string(W.lib_open.size()));
 		for (auto &kv : ex.ptrs)
 			if (kv.second.released != 1)
-				ex.res.conservation.push_back("ptr-release obj" + std::to_string(kv.second.id) + " released=" + std::to_string(kv.second.released));
+				ex.res.conservation.push_back(std::string("ptr-release released=") + std::to_string(kv.second.released) + " x1 obj(" + kv.second.val + ")");
 		if (cfg_include_stack_ptr != 0)
 			ex.res.conservation.push_back("include-stack=" + std::to_string(cfg_include_stack_ptr));
 		if (W.foreign_free)
 			ex.res.conservation.push_back("foreign-free x" + std::to_string(W.foreign_free));
 	}
 
+	std::sort(ex.res.conservation.begin(), ex.res.conservation.end());
 	ex.res.allocs_u1 = W.total_u1;
 	ex.res.allocs_u2 = W.total_u2;
 	ex.res.reads = W.total_reads;
